@@ -26,6 +26,7 @@ FaultsAll == {"none", "attr", "opt1", "opt2", "opt3"}
 
 PT(t) == [id |-> t.id, cnt |-> t.attrs.cnt, tag |-> t.attrs.tag, st |-> t.attrs.st,
           obs |-> [k \in Classes |-> t.obs[k]],
+          cls |-> AscSeq({k \in Classes : t.obs[k] # <<>>}),
           calls |-> IF \E k \in Classes : t.obs[k] # <<>> THEN t.calls ELSE -1, hist |-> t.hist]
 PR(r) == [ok |-> r.ok, notes |-> r.notes, t |-> PT(r.t)]
 
